@@ -14,6 +14,7 @@ import Barril.Proofs.FracLemmas
 import Barril.Proofs.FracText
 import Barril.Proofs.FracCF
 import Barril.Proofs.FracDigits
+import Barril.Proofs.FracPool
 import Barril.Props.C01
 
 namespace Barril.Frac
@@ -60,7 +61,7 @@ theorem fraction_ops_exact (s o : Frac) :
     neg_eq s, abs_eq s, copy_eq s, rfl⟩
   · unfold Frac.radd; rw [add_of_coerce (coerce_frac o), add_comm]
   · unfold Frac.rsub; rw [sub_frac]; simp only; rw [neg_eq]; simp
-  · unfold Frac.rmul; rw [mul_of_coerce (coerce_frac o), mul_comm]
+  · rw [rmul_of_coerce (coerce_frac o), mul_comm]
 
 /-- **`/`, reflected `/`, `inv` and `%`**: exact when the divisor is non-zero … -/
 theorem fraction_div_mod_exact (s o : Frac) (ho : o.x ≠ 0) :
@@ -94,7 +95,7 @@ theorem fraction_ops_number (s : Frac) (m : Int) (i : Nat) (hi : i ≤ 7) :
     rwa [e] at this
   have hsub : s.sub (.num (.fin q)) = .ok ⟨s.x - q⟩ := by
     rw [sub_num_of_coerce hn]; simp [sub_eq_add_neg]
-  refine ⟨add_of_coerce hc, add_of_coerce hc, hsub, ?_, mul_of_coerce hc, mul_of_coerce hc, ?_, ?_⟩
+  refine ⟨add_of_coerce hc, add_of_coerce hc, hsub, ?_, mul_of_coerce hc, rmul_of_coerce hc, ?_, ?_⟩
   · unfold Frac.rsub; rw [hsub]; simp only; rw [neg_eq]; simp
   · intro hq; exact ⟨div_of_coerce hc hq, mod_of_coerce hc hq⟩
   · intro hs; exact rdiv_of_coerce hc hs
@@ -412,5 +413,178 @@ theorem createFromFloat_tiny_counterexample :
     createFromFloat (3 / 20000000) = .ok ⟨0, ⟨1 / 20000000⟩⟩ := by decide +kernel
 
 /-! ### non-vacuity -/
+
+/-! ## 8. objects are independent: whatever is done to one leaves the amount of every other
+
+A program is a sequence of statements over the objects it has built so far (`Pool`): each statement
+builds a new `Fraction`/`FractionValue`/`FractionScalar` (every constructor form, `CreateFromFloat`,
+`CreateFromString`, copies, arithmetic, conversions — they may read other objects) or changes one object
+in place (the `numerator`/`denominator` setters, `fraction[i] = …`, `reduce`, `SetNumber`, `SetFraction`,
+on a FractionValue also through `fv.fraction`, on a FractionScalar through `fs.GetValue()`). -/
+
+/-- **one statement changes at most the object it is aimed at**: every other object is exactly what
+it was (number, fraction, unit), hence denotes the same amount; building a new object changes no
+existing one -/
+theorem pool_step_independent (db : Db) (p : Pool) (op : PoolOp) (j : Nat) (hj : j < p.length)
+    (h : op.target ≠ some j) :
+    (poolStep db p op).1[j]? = p[j]?
+    ∧ ((poolStep db p op).1[j]?).map Obj.value = (p[j]?).map Obj.value := by
+  rw [poolStep_get_other db p op j hj h]; exact ⟨rfl, rfl⟩
+
+/-- **for every program, by induction over its statements: object `j` ends as what the in-place
+statements aimed at `j` itself, applied to it alone, make of it** — no statement aimed at another
+object, no construction, copy, conversion or arithmetic in between enters the result -/
+theorem pool_run_projection (db : Db) (ops : List PoolOp) (p : Pool) (j : Nat) (o : Obj) (h : p[j]? = some o) :
+    (poolRun db p ops)[j]? = some (o.mutateAll (mutsOf j ops)) := poolRun_projection db ops p j o h
+
+/-- **an object no statement is aimed at keeps its parts and its amount through any program** -/
+theorem pool_run_independent (db : Db) (ops : List PoolOp) (p : Pool) (j : Nat) (o : Obj) (h : p[j]? = some o)
+    (hno : ∀ op ∈ ops, op.target ≠ some j) :
+    (poolRun db p ops)[j]? = some o ∧ ((poolRun db p ops)[j]?).map Obj.value = some o.value := by
+  have := poolRun_projection db ops p j o h
+  rw [mutsOf_nil_of_no_target j ops hno] at this
+  simp only [Obj.mutateAll] at this
+  rw [this]; exact ⟨rfl, rfl⟩
+
+/-- **a FractionValue built without a fraction argument (`FractionValue(n)`, `FractionValue()`,
+`FractionValue(number=n)`) denotes `n`, and keeps denoting `n` whatever the program does afterwards
+to the other objects** — whatever pool it was built into -/
+theorem fv_without_fraction_denotes_number (db : Db) (p : Pool) (n : Rat) (ops : List PoolOp)
+    (hno : ∀ op ∈ ops, op.target ≠ some p.length) :
+    (poolRun db p (.new (.fvNew (some n) FracArg.default) :: ops))[p.length]? = some (.fv ⟨n, ⟨0⟩⟩)
+    ∧ (Obj.fv ⟨n, ⟨0⟩⟩).value = n := by
+  constructor
+  · have hs : poolStep db p (.new (.fvNew (some n) FracArg.default)) = (p ++ [.fv ⟨n, ⟨0⟩⟩], .ok ()) :=
+      poolStep_new db p _ _ (by simp [Ctor.eval, okFV, fvInit_default])
+    simp only [poolRun, hs]
+    exact (pool_run_independent db ops _ p.length _ (by simp) hno).1
+  · simp [Obj.value, FV.value, Frac.toFloat]
+
+/-- the same for a FractionValue built with an explicit fraction, by `CreateFromFloat`,
+`CreateFromString`, a copy, a conversion …: whatever a construction built stays what it built -/
+theorem pool_new_keeps (db : Db) (p : Pool) (c : Ctor) (o : Obj) (hc : c.eval db p = .ok (some o))
+    (ops : List PoolOp) (hno : ∀ op ∈ ops, op.target ≠ some p.length) :
+    (poolRun db p (.new c :: ops))[p.length]? = some o := by
+  simp only [poolRun, poolStep_new db p c o hc]
+  exact (pool_run_independent db ops _ p.length _ (by simp) hno).1
+
+/-- **a FractionScalar built from a plain float `x` holds the FractionValue `x` (no fraction) in its
+unit** — the amount a Scalar holding `x` has — **and keeps it through any program on other objects** -/
+theorem fs_from_float_denotes_float (db : Db) (p : Pool) (cat unit : Sym) (q : Qty) (x : Rat)
+    (hq : obtain db cat unit = .ok q) (ops : List PoolOp) (hno : ∀ op ∈ ops, op.target ≠ some p.length) :
+    (poolRun db p (.new (.fsNew cat unit (.num x)) :: ops))[p.length]? = some (.fs ⟨q, ⟨x, ⟨0⟩⟩⟩)
+    ∧ (Obj.fs ⟨q, ⟨x, ⟨0⟩⟩⟩).value = x := by
+  constructor
+  · exact pool_new_keeps db p _ _ (by simp [Ctor.eval, fvInit_default, FS.init, hq]) ops hno
+  · simp [Obj.value, FV.value, Frac.toFloat]
+
+/-- copies and arithmetic results are new objects: changing them later does not reach the original
+(and the other way round) -/
+theorem pool_copy_independent (db : Db) (p : Pool) (k : Nat) (v : FV) (hk : p[k]? = some (.fv v))
+    (ops : List PoolOp) :
+    (poolRun db p (.new (.fvCopy k) :: ops))[k]? = some ((Obj.fv v).mutateAll (mutsOf k ops))
+    ∧ (poolRun db p (.new (.fvCopy k) :: ops))[p.length]? = some ((Obj.fv v).mutateAll (mutsOf p.length ops)) := by
+  have hc : (Ctor.fvCopy k).eval db p = .ok (some (.fv v)) := by
+    simp [Ctor.eval, Pool.fv?, hk, fv_copy, okFV]
+  have hklt : k < p.length := (List.getElem?_eq_some_iff.mp hk).1
+  simp only [poolRun, poolStep_new db p _ _ hc]
+  constructor
+  · exact poolRun_projection db ops _ k _ (by rw [List.getElem?_append_left hklt]; exact hk)
+  · exact poolRun_projection db ops _ p.length _ (by simp)
+
+/-! ## 9. the in-place setters and the sequence protocol of `Fraction` -/
+
+/-- **`f.numerator = n` / `f.denominator = d` with ints give `n / denominator` and `numerator / d`
+exactly** (`d = 0` is Python's `ZeroDivisionError`); infinite values are refused -/
+theorem fraction_set_int (f : Frac) (n d : Int) (hd : d ≠ 0) (neg : Bool) :
+    f.setNum (.int n) = .ok ⟨(n : Rat) / (f.denominator : Rat)⟩
+    ∧ f.setDen (.int d) = .ok ⟨(f.numerator : Rat) / (d : Rat)⟩
+    ∧ f.setDen (.int 0) = .error .other
+    ∧ f.setNum (.inf neg) = .error .value ∧ f.setDen (.inf neg) = .error .value :=
+  ⟨setNum_int f n, setDen_int f d hd, setDen_zero f, rfl, rfl⟩
+
+/-- **a float argument (a decimal with at most seven places) acts as the rational it denotes** -/
+theorem fraction_set_float (f : Frac) (m : Int) (i : Nat) (hi : i ≤ 7) :
+    f.setNum (.float ((m : Rat) / 10 ^ i)) = .ok ⟨(m : Rat) / 10 ^ i / (f.denominator : Rat)⟩
+    ∧ (m ≠ 0 → f.setDen (.float ((m : Rat) / 10 ^ i)) = .ok ⟨(f.numerator : Rat) / ((m : Rat) / 10 ^ i)⟩) :=
+  ⟨setNum_decimal f m i hi, setDen_decimal f m i hi⟩
+
+/-- `f[0] = n`, `f[-2] = n` set the numerator, `f[1] = d`, `f[-1] = d` the denominator (ints only);
+`f[1] = 0` is refused by the assertion, other keys by the list -/
+theorem fraction_setitem (f : Frac) (n d : Int) (hd : d ≠ 0) :
+    f.setItem (some 0) (.int n) = f.setNum (.int n) ∧ f.setItem (some (-2)) (.int n) = f.setNum (.int n)
+    ∧ f.setItem (some 1) (.int d) = f.setDen (.int d) ∧ f.setItem (some (-1)) (.int d) = f.setDen (.int d)
+    ∧ f.setItem (some 1) (.int 0) = .error .assertion
+    ∧ f.setItem (some 2) (.int n) = .error .index ∧ f.setItem none (.int d) = .error .type := by
+  have hd' : (d != 0) = true := by simp [hd]
+  refine ⟨?_, ?_, ?_, ?_, ?_, ?_, ?_⟩ <;>
+    simp [Frac.setItem, Frac.setNum, Frac.setDen, PyNum.isNumber, PyNum.truthy, hd']
+
+/-- **the sequence protocol shows the fraction itself**: `len(f) = 2`, `f[0]`/`f[-2]` the numerator,
+`f[1]`/`f[-1]` the denominator, iteration both, and `f[0] / f[1]` is the amount -/
+theorem fraction_sequence (f : Frac) :
+    f.len = 2 ∧ f.getItem (some 0) = .ok f.numerator ∧ f.getItem (some 1) = .ok f.denominator
+    ∧ f.getItem (some (-2)) = .ok f.numerator ∧ f.getItem (some (-1)) = .ok f.denominator
+    ∧ f.getItem (some 2) = .error .index ∧ f.getItem none = .error .type
+    ∧ f.iter = [f.numerator, f.denominator]
+    ∧ (f.numerator : Rat) / (f.denominator : Rat) = f.x := by
+  refine ⟨rfl, rfl, rfl, rfl, rfl, rfl, rfl, rfl, ?_⟩
+  exact num_div_den' f.x
+
+/-- setting a part in place and reading it back through a FractionValue: `fv.fraction.numerator = n`
+changes the fraction only, `SetNumber` the number only -/
+theorem fv_mutate_parts (v : FV) (n : Int) (x : Rat) :
+    v.mutate (.setNum (.int n)) = .ok ⟨v.number, ⟨(n : Rat) / (v.frac.denominator : Rat)⟩⟩
+    ∧ v.mutate (.setNumber (some x)) = .ok ⟨x, v.frac⟩ := by
+  constructor
+  · simp [FV.mutate, Frac.mutate, setNum_int]
+  · rfl
+
+/-! ## 10. `Fraction.__pow__` agrees with exact rational arithmetic for integer exponents -/
+
+/-- **`f ** k` is `f.x ^ k` for every integer `k ≥ 0`, the reciprocal power for `k < 0` and `f ≠ 0`
+(an int or an integral float exponent alike); `0 ** k` for `k < 0` is refused** -/
+theorem fraction_pow_exact (s : Frac) (k : Nat) :
+    s.pow (.int k) = .ok ⟨s.x ^ k⟩ ∧ s.pow (.float k) = .ok ⟨s.x ^ k⟩
+    ∧ (0 < k → s.x ≠ 0 → s.pow (.int (-(k : Int))) = .ok ⟨(s.x ^ k)⁻¹⟩ ∧ s.pow (.float (-(k : Int))) = .ok ⟨(s.x ^ k)⁻¹⟩)
+    ∧ (0 < k → s.x = 0 → s.pow (.int (-(k : Int))) = .error .assertion) :=
+  ⟨powInt_nonneg s k, powInt_nonneg s k, fun hk hx => ⟨powInt_neg s k hk hx, powInt_neg s k hk hx⟩,
+   fun hk hx => powInt_neg_zero s k hk hx⟩
+
+/-- in one formula: `f ** k = f.x ^ k` with the integer power of the rationals (`zpow`) -/
+theorem fraction_pow_zpow (s : Frac) (k : Int) (hx : s.x ≠ 0) : s.pow (.int k) = .ok ⟨s.x ^ k⟩ := by
+  rcases Int.eq_nat_or_neg k with ⟨n, rfl | rfl⟩
+  · rw [zpow_natCast]; exact powInt_nonneg s n
+  · rcases Nat.eq_zero_or_pos n with rfl | hn
+    · simpa [Frac.pow] using powInt_nonneg s 0
+    · rw [zpow_neg, zpow_natCast]; exact powInt_neg s n hn hx
+
+/-- an infinite exponent: `float(f) ** ±inf` is 1, 0 or infinite, and an infinite value is refused -/
+theorem fraction_pow_inf (s : Frac) (neg : Bool) (h : |s.x| ≠ 1) :
+    s.pow (.inf neg) = (if (decide (1 < |s.x|)) != neg then .error .value else .ok ⟨0⟩) := by
+  have h0 := normalise_int 0 1
+  simp only [Int.cast_zero, div_one] at h0
+  simp [Frac.pow, Frac.powInf, absR_eq_abs, h, init_fin_none, h0]
+
+/-! ## 11. the localized texts and the other argument forms -/
+
+/-- **`GetLocalizedString()` is `str()` (C locale), so parsing it gives the value back under the
+hypotheses of `parse_format`, with either setting of `consider_locale`; `GetLocalizedFraction()` is
+the fraction part of that text** -/
+theorem localized_parse (v : FV) (hn : Printable v.number) (hnum : v.frac.numerator.natAbs < 1000000)
+    (hden : v.frac.denominator < 1000000) (cl : Bool) :
+    parseWith cl v.localizedString = .ok v
+    ∧ v.str = (if v.frac.toFloat = 0 then fmtG v.number else fmtG v.number ++ ' ' :: v.localizedFraction) := by
+  refine ⟨parse_format v hn hnum hden, ?_⟩
+  unfold FV.str FV.localizedFraction
+  split <;> rfl
+
+/-- `CreateFromFloat(None)` is `None`, a non-number a `TypeError`, a number what section 7 says -/
+theorem createFromFloat_arguments (d : Rat) :
+    createFromFloatPy .none = .ok none ∧ createFromFloatPy .bad = .error .type
+    ∧ createFromFloatPy (.num d) = (createFromFloat d).map some := by
+  refine ⟨rfl, rfl, ?_⟩
+  simp only [createFromFloatPy]
+  cases h : createFromFloat d <;> simp [Except.map]
 
 end Barril.Frac
